@@ -13,7 +13,8 @@ RULE = ('codec level: parity of codecs 1, 2, 3 and of the extracted model on eve
         'tool level: trees (sizes 0/1/block boundaries, nested and latin-1 names) x parameter sets, both tools: body and .idx equal for '
         'codecs 1,2,3; equal after copying the tree to another root and shifting every mtime; all 9 (generating, correcting) pairs on a '
         'tree damaged within capacity restore the originals and exit 0.  non-trivial = non-empty message / non-empty tree; distinct by '
-        '(n, k, message) resp. (tool, parameters, tree id, pair).')
+        '(n, k, message) resp. (tool, parameters, tree id, pair).  Plus: entry-order stream (entries of each generated ecc file = Walk.walk) '
+        'and genbody stream (the composed generation model reproduces the ecc body byte for byte, hash and rate rule as tables).')
 TRUSTED_EXTRA = ['codec level as C11; tool level: C12_body_deterministic / C12_listing_order_irrelevant (Proofs/GenDet.v) over the walk '
                  'model of C07 and the entry format of C03/C08; tied here by the entry-order stream (entries of every generated ecc file = '
                  'Walk.walk of the tree, original root and moved copy under an adversarial listing order) and by the determinism predicate '
